@@ -279,6 +279,90 @@ def check_recv(rep, db):
     return viol, len(res)
 
 
+def check_history(rep, db, L, kinds=('ReplicaCommit', 'ReplicaTimeout'), sym_sig=True):
+    """REPRESENTATION-INDEPENDENT queue histories: the channel is built by the real `prunable_mpsc::channel` (bft's filter and
+    selection functions) and driven through every sequence of <= L operations send(request) / recv() by the real `Sender::send` and
+    `Receiver::recv`; only what recv() RETURNS is observed, and compared with a ghost pending list kept by the specification (a
+    validly signed request replaces a pending one of its (sender, kind) class with a lower view, is discarded if one with an equal or
+    higher view is pending, is appended otherwise; recv takes the front). Whatever private buffers the implementation keeps, a
+    request handed to the consumer must be the one the specification says is pending first."""
+    ex = Exec(db, loop_bound=40)
+    install(ex, db)
+    coro.install_futures(ex)
+    chan_key = [k for k in db.find(r'zksync_concurrency::sync::prunable_mpsc::channel::<zksync_consensus_network::io::ConsensusReq, .*inbound_filter_predicate.*>', kinds=('inst',))]
+    if not chan_key: raise Unmodelled('no instance of prunable_mpsc::channel for the consensus inbound queue')
+    chan_key = chan_key[0]
+    send_key = db.find_one(r'zksync_concurrency::sync::prunable_mpsc::Sender::<zksync_consensus_network::io::ConsensusReq>::send', kinds=('inst',))
+    recv_key = db.find_one(r'zksync_concurrency::sync::prunable_mpsc::Receiver::<zksync_consensus_network::io::ConsensusReq>::recv', kinds=('inst',))
+    fn_filter = fnval(db, r'zksync_consensus_bft::inbound_filter_predicate')
+    fn_select = fnval(db, r'zksync_consensus_bft::inbound_selection_function')
+    n_before = len(ex.user_models)
+    def watch_channel(e, n, a):
+        w = M.WatchV(a[0]); return M.tup(w, coro.WatchReceiver(w))
+    ex.model(r'(tokio|zksync_concurrency)::sync::watch::channel::<.*>', watch_channel)
+    mine = ex.user_models[n_before:]; del ex.user_models[n_before:]; ex.user_models[0:0] = mine; ex._um_cache = {}
+
+    def body(ex):
+        ex.c16 = None; ex.allow_cancel = False
+        pair = ex.call_key(chan_key, [fn_filter, fn_select])
+        sender, receiver = pair.fields[0], pair.fields[1]
+        scell, rcell = Cell(sender), Cell(receiver)
+        ghost = []            # [(req, key_tag, kind, view)] in pending order
+        trace = []; bad = []
+        nsend = 0
+        for step in range(L):
+            op = ex.choose(2, f'op{step}')
+            if op == 0:
+                # two kinds are enough to exercise classes: same kind / other kind
+                kind = kinds[ex.choose(len(kinds), f'kind{step}')] if len(kinds) > 1 else kinds[0]
+                req, kt, ve, so = mk_req(ex, db, f'm{nsend}', kind); nsend += 1
+                ex.assume(z3.And(kt >= 0, kt <= 1))
+                if not sym_sig: ex.assume(so)
+                ex.call_key(send_key, [Ref(scell), req])
+                # ghost update, decided on this path: fork on the specification's own case distinction
+                if ex.branch(so):
+                    keep = True; ng = []
+                    for g in ghost:
+                        if g[2] == kind and ex.branch(g[1] == kt):
+                            if ex.branch(g[3] < ve): continue          # stale entry of the class is dropped
+                            keep = False
+                        ng.append(g)
+                    ghost = ng + ([(req, kt, kind, ve)] if keep else [])
+                trace.append(f'send({kind})')
+            else:
+                r = coro.run_async(ex, recv_key, [Ref(rcell), Ref(Cell(Opaque('ctx')))])
+                if not ghost:
+                    if r != 'pending' and not (r.variant == 1): bad.append((step, 'recv returns a request although nothing is pending'))
+                    trace.append('recv()->nothing'); continue
+                if r == 'pending' or r.variant == 1:
+                    bad.append((step, 'recv does not return although a request is pending')); trace.append('recv()->pending'); continue
+                got = r.fields[0]
+                want = ghost.pop(0)
+                # requests are identified by their (unique) acknowledgement channel, not by object identity: an implementation may move
+                # them through private buffers
+                tag_of = lambda q: getattr(fld(M.deref_all(q), 'ack'), 'tag', None)
+                if tag_of(got) != tag_of(want[0]):
+                    which = [i for i, g in enumerate([want] + ghost) if tag_of(g[0]) == tag_of(got)]
+                    bad.append((step, f'recv hands over a request that is not the first pending one per the specification ({"a later pending one" if which else "one the specification dropped or never admitted"})'))
+                trace.append('recv()')
+        return bad, trace
+    res = explore(ex, body, budget_s=900)
+    rep.absorb_stats(ex.stats)
+    viol = []
+    for kind_, val, pc, log in res:
+        if kind_ == 'panic':
+            st, m = solve(pc, None)
+            if st == 'sat': viol.append((panic_key(val), f'the inbound queue panics in a send / recv history: {val[0]} at {val[1]}', m, None))
+            continue
+        bad, trace = val
+        rep.nontrivial += 1
+        if bad:
+            st, m = solve(pc, None)
+            if st == 'sat':
+                viol.append(('queue-history', f'{bad[0][1]} at step {bad[0][0]} of the history {" ; ".join(trace)}: the consumer is handed a stale or superseded request (the freshest vote of a sender is not the one delivered) or a pending one is withheld', m, None))
+    return viol, len(res)
+
+
 def run(rep, db, tier, seed):
     rep.engines.append('mirsym (MIR symbolic execution + z3)')
     rep.trusted += M.TRUSTED + env.TRUSTED + ['tokio watch channel = a cell; send_modify runs its closure on the cell (one critical section)', 'ideal signatures (a request is validly signed iff its ghost flag says so)']
@@ -326,4 +410,18 @@ def run(rep, db, tier, seed):
         rep.add(Obligation('recv returns the front', 'violated' if viol else 'discharged', paths=n))
     except (Unmodelled, ImportError) as u:
         rep.add(Obligation('recv returns the front', 'inconclusive', str(u)[:600]))
+    cfgs = [(4, ('ReplicaCommit', 'ReplicaTimeout'), True), (5, ('ReplicaCommit',), False)] if tier == 'quick' else [(5, ('ReplicaCommit', 'ReplicaTimeout'), True), (6, ('ReplicaCommit',), False)]
+    for L, kinds_, sym_sig in cfgs:
+        t0 = time.time()
+        oname = f'send / recv histories of {L} operations on the real channel ({len(kinds_)} message kind(s), signature validity {"symbolic" if sym_sig else "true"}; only what recv returns is observed)'
+        try:
+            viol, n = check_history(rep, db, L, kinds_, sym_sig)
+            for key, text, m, shape in viol:
+                if key in seen: continue
+                seen[key] = 1
+                rep.violation(Violation(PROP, key, text + ' | ' + witness_text(m), None, None))
+            rep.add(Obligation(oname, 'violated' if viol else 'discharged', paths=n, wall_s=round(time.time() - t0, 1)))
+        except (Unmodelled, KeyError) as u:
+            rep.add(Obligation(oname, 'inconclusive', f'{type(u).__name__}: {u}'[:600]))
+    rep.bounds['histories'] = '; '.join(f'{L} operations x {len(k)} kind(s)' for L, k, _ in cfgs) + '; 2 sender identities, symbolic views'
     rep.extra['explanation'] = 'one send / recv step from an arbitrary invariant-satisfying buffer on the real MIR; all sender identities, views and signature validities covered by solver verdicts'
